@@ -648,3 +648,82 @@ T("C07", "twin-body-split-limit-one", C2, _BODY,
   "    blocks = data.split(b\"\\r\\n\\r\\n\", 1)\n    header_data = blocks[0]\n    body = blocks[1] if len(blocks) == 2 else b\"\"\n")
 T("C07", "twin-header-unpacked-later", C2, _HDR,
   "        cut = header.partition(b\": \")\n        key = cut[0]\n        value = cut[-1]\n        headers[key] = value\n")
+
+# ------------------------------------------------------------------------------------------------ R11: the appended / prepended literal is taken off by position
+_REC_APPEND = (
+    "            if step == \"append\":\n"
+    "                if isinstance(step_val, bytes):\n"
+    "                    step_val = len(step_val)\n"
+    "                assert isinstance(step_val, int)\n"
+    "                data = data[: len(data) - step_val]\n"
+)
+_REC_PREPEND = (
+    "            elif step == \"prepend\":\n"
+    "                if isinstance(step_val, bytes):\n"
+    "                    step_val = len(step_val)\n"
+    "                assert isinstance(step_val, int)\n"
+    "                data = data[step_val:]\n"
+)
+_REC_APPEND_BY = (
+    "            if step == \"append\":\n"
+    "                if isinstance(step_val, bytes):\n"
+    "                    data = {cut}\n"
+    "                else:\n"
+    "                    assert isinstance(step_val, int)\n"
+    "                    data = data[: len(data) - step_val]\n"
+)
+_REC_PREPEND_BY = (
+    "            elif step == \"prepend\":\n"
+    "                if isinstance(step_val, bytes):\n"
+    "                    data = {cut}\n"
+    "                else:\n"
+    "                    assert isinstance(step_val, int)\n"
+    "                    data = data[step_val:]\n"
+)
+# the literal's bytes used as a SET (strip family), on the other side than the seeded change / on both ends
+M("C07", "recover-prepend-lstrip-literal", C2, _REC_PREPEND, _REC_PREPEND_BY.format(cut="data.lstrip(step_val)"), "C07.R11")
+M("C07", "recover-append-strip-both-ends", C2, _REC_APPEND, _REC_APPEND_BY.format(cut="data.strip(step_val)"), "C07.R11")
+M("C07", "recover-append-slice-then-rstrip-temporary", C2, _REC_APPEND,
+  "            if step == \"append\":\n"
+  "                if isinstance(step_val, bytes):\n"
+  "                    tail = step_val[-1:]\n"
+  "                    step_val = len(step_val) - 1\n"
+  "                    data = data.rstrip(tail)\n"
+  "                assert isinstance(step_val, int)\n"
+  "                data = data[: len(data) - step_val]\n", "C07.R11")
+# cut at the wrong occurrence of the literal / every occurrence rewritten: the payload may contain the literal
+M("C07", "recover-append-partition-first-occurrence", C2, _REC_APPEND, _REC_APPEND_BY.format(cut="data.partition(step_val)[0]"), "C07.R11")
+M("C07", "recover-append-unlimited-split", C2, _REC_APPEND, _REC_APPEND_BY.format(cut="data.split(step_val)[0]"), "C07.R11")
+M("C07", "recover-prepend-rpartition-last-occurrence", C2, _REC_PREPEND, _REC_PREPEND_BY.format(cut="data.rpartition(step_val)[2]"), "C07.R11")
+M("C07", "recover-append-replace-all", C2, _REC_APPEND, _REC_APPEND_BY.format(cut="data.replace(step_val, b\"\")"), "C07.R11")
+M("C07", "recover-prepend-removesuffix-wrong-end", C2, _REC_PREPEND, _REC_PREPEND_BY.format(cut="data.removesuffix(step_val)"), "C07.R11")
+# twins: exact affix removal / length-based slices in other spellings
+T("C07", "twin-recover-append-removesuffix", C2, _REC_APPEND, _REC_APPEND_BY.format(cut="data.removesuffix(step_val)"))
+T("C07", "twin-recover-prepend-removeprefix", C2, _REC_PREPEND, _REC_PREPEND_BY.format(cut="data.removeprefix(step_val)"))
+T("C07", "twin-recover-append-slice-per-kind", C2, _REC_APPEND, _REC_APPEND_BY.format(cut="data[: len(data) - len(step_val)]"))
+T("C07", "twin-recover-affix-count-local", C2, _REC_APPEND,
+  "            if step == \"append\":\n"
+  "                count = len(step_val) if isinstance(step_val, bytes) else step_val\n"
+  "                assert isinstance(count, int)\n"
+  "                data = data[: len(data) - count]\n")
+
+# ------------------------------------------------------------------------------------------------ R12: a missing session key is derived from fresh metadata
+_DERIVE_TEST = "                if not all([self.beacon_keys.aes_key, self.beacon_keys.hmac_key]):\n"
+_DERIVE = (
+    "                    aes_key, hmac_key = derive_aes_hmac_keys(metadata.aes_rand)\n"
+    "                    self.beacon_keys = BeaconKeys(aes_key, hmac_key)\n"
+)
+M("C07", "derive-only-when-aes-key-missing", C2, _DERIVE_TEST, "                if not self.beacon_keys.aes_key:\n", "C07.R12")
+M("C07", "derive-only-when-both-none", C2, _DERIVE_TEST, "                if self.beacon_keys.aes_key is None and self.beacon_keys.hmac_key is None:\n", "C07.R12")
+M("C07", "derive-only-when-hmac-missing-alias", C2, _DERIVE_TEST, "                current = self.beacon_keys\n                if current.hmac_key is None:\n", "C07.R12")
+M("C07", "derive-none-not-in-both", C2, _DERIVE_TEST, "                if None not in (self.beacon_keys.aes_key, self.beacon_keys.hmac_key):\n", "C07.R12")
+M("C07", "derived-keys-swapped", C2, _DERIVE, _DERIVE.replace("BeaconKeys(aes_key, hmac_key)", "BeaconKeys(hmac_key, aes_key)"), "C07.R12")
+M("C07", "derived-keys-unpacked-in-wrong-order", C2, _DERIVE, _DERIVE.replace("aes_key, hmac_key = derive", "hmac_key, aes_key = derive"), "C07.R12")
+T("C07", "twin-derive-is-none-or", C2, _DERIVE_TEST, "                if self.beacon_keys.aes_key is None or self.beacon_keys.hmac_key is None:\n")
+T("C07", "twin-derive-none-in-tuple", C2, _DERIVE_TEST, "                if None in (self.beacon_keys.aes_key, self.beacon_keys.hmac_key):\n")
+T("C07", "twin-derive-not-and-alias", C2, _DERIVE_TEST, "                current = self.beacon_keys\n                if not (current.aes_key and current.hmac_key):\n")
+T("C07", "twin-derive-complete-flag", C2, _DERIVE_TEST,
+  "                complete = bool(self.beacon_keys.aes_key) and bool(self.beacon_keys.hmac_key)\n                if not complete:\n")
+T("C07", "twin-derive-from-aes-rand-classmethod", C2, _DERIVE, "                    self.beacon_keys = BeaconKeys.from_aes_rand(metadata.aes_rand)\n")
+T("C07", "twin-derive-keyword-fields", C2, _DERIVE,
+  "                    derived = derive_aes_hmac_keys(metadata.aes_rand)\n                    self.beacon_keys = BeaconKeys(hmac_key=derived[1], aes_key=derived[0])\n")
